@@ -8,6 +8,8 @@ package main
 // Exit 2: no verdict (load or type-check failure, checker panic).
 
 import (
+	"golang.org/x/tools/go/ssa"
+
 	"encoding/json"
 	"flag"
 	"fmt"
@@ -167,6 +169,9 @@ func resetCaches() {
 	mayStoreCache = map[*ssaFunc]map[string]bool{}
 	atomUnsigned = map[string]bool{}
 	initFuncs = nil
+	regCache = nil
+	reachEffCache = map[string]map[*ssaFunc]bool{}
+	sentinelCache = map[*ssa.Global]int{}
 }
 
 func dumpFunc(p *Prog, name string) {
